@@ -14,7 +14,7 @@ class Engine:
         if env:
             e.update({k: str(v) for k, v in env.items()})
         self.p = subprocess.Popen([core.ENGINE, *args], stdin=subprocess.PIPE, stdout=subprocess.PIPE,
-                                  stderr=subprocess.PIPE, text=True, bufsize=1, env=e)
+                                  stderr=subprocess.PIPE, text=True, errors="replace", bufsize=1, env=e)
         self.q = queue.Queue()
         self.t = threading.Thread(target=self._reader, daemon=True)
         self.t.start()
